@@ -506,6 +506,9 @@ func (m *impl14) Exec(line string) string {
 	if m.cur == nil || len(ws) < 3 {
 		return "bad-op"
 	}
+	if strings.HasPrefix(m.cur.repeat, "err:") {
+		return "refused" // nothing was written: order questions do not arise
+	}
 	switch ws[1] + " " + ws[2] {
 	case "gsort order", "genum values":
 		return show(m.cur.order)
@@ -524,7 +527,7 @@ func compare14(req, im, mo string) bool {
 	if len(ws) >= 2 && ws[1] == "repeat" {
 		return strings.HasPrefix(im, "err:")
 	}
-	return false
+	return im == "refused"
 }
 
 func lines14(header string, k int, extra ...string) []string {
